@@ -130,10 +130,12 @@ def make_scenario(rng, corpus_ids=None, gen_pool=None):
             calls.append({"name": name, "op": op})
         threads.append(calls)
     k = rng.random()
-    if k < 0.4:
+    if k < 0.3:
         strat = {"kind": "pct", "d": rng.choice([1, 2, 3])}
-    elif k < 0.85:
+    elif k < 0.6:
         strat = {"kind": "random", "p": rng.choice([5e-4, 5e-3, 5e-2]), "p_shared": 0.5}
+    elif k < 0.88:
+        strat = {"kind": "rendezvous", "q": rng.choice([0.1, 0.3, 0.6]), "burst": rng.choice([20, 60, 200]), "p": 1e-3}
     else:
         strat = {"kind": "phase", "p": 0.5}
     return {"threads": threads, "strategy": strat, "sched_seed": rng.randrange(1 << 30)}
@@ -391,13 +393,12 @@ def run(ctx):
         alone_map.update(r)
     size = 6
     tasks = []
+    scns.sort(key=lambda ss: sum(1 for cl in ss[1]["threads"] for c in cl if _op_key(c["op"]) not in alone_map))
     for i in range(0, n, size):
-        part = [(sd, scn) for sd, scn in scns[i:i + size]
-                if all(_op_key(c["op"]) in alone_map for cl in scn["threads"] for c in cl)]
-        if part:
-            keys = {_op_key(c["op"]) for _sd, scn in part for cl in scn["threads"] for c in cl}
-            tasks.append({"scenarios": part, "alone": {k: alone_map[k] for k in keys}})
-    done = ctx.map("task_scenarios", tasks, budget_s=ctx.budget_s * 0.8)
+        part = scns[i:i + size]
+        keys = {_op_key(c["op"]) for _sd, scn in part for cl in scn["threads"] for c in cl}
+        tasks.append({"scenarios": part, "alone": {k: alone_map[k] for k in keys if k in alone_map}})
+    done = ctx.map("task_scenarios", tasks, budget_s=ctx.budget_s * 0.8, min_tasks=24)
     violations, inter, samples = [], set(), []
     n_eval = steps = switches = contended = shared = 0
     by_strategy = {}
